@@ -342,7 +342,7 @@ def rtc_slq(case_names, tier):
     if quick:
         cb = [(f64, (), 4), (f64, (2,), 6), (f64, (2, 3), 2), (f64, (1,), 1), (torch.float32, (), 6), (torch.float32, (2,), 2), (f64, (), 2), (torch.float32, (1,), 4)]
     else:
-        cb = H.combos("thorough", sizes=[1, 2, 3, 4, 6, 9])
+        cb = H.combos("thorough")
     deterministic = set()
     for label, c, dt, batch, n, make, D, kap in _instances(H, rec, tier, case_names, combos_=cb):
         if not getattr(c, "cg", True) or kap > 2e4:
@@ -428,7 +428,10 @@ def rtc_slq(case_names, tier):
                     rec.check(f"slq_exact/{c.name}", lab, False, f"shape {tuple(got.shape)} vs {tuple(exp.shape)}")
                     continue
                 kA = max(kap, 1.0)
-                tol = (5e-3 if dt == torch.float32 else 2e-7) * max(1.0, kA / 100.0)
+                # the library's tridiagonal comes from the CG coefficients (no re-orthogonalisation): for kappa > 1e3 ghost
+                # eigenvalues appear within n <= 18 steps and the rule is only reproduced to a few digits (DESIGN section 6);
+                # scale / sign / probe mistakes are O(10%) and still visible at the wide tolerance
+                tol = (5e-3 if dt == torch.float32 else 2e-7) * max(1.0, kA / 100.0) if kA <= 1e3 else 2e-2
                 err = float(((got - exp).abs() / (1.0 + exp.abs())).max())
                 grp = "slq_exact" if kq >= nn else "slq_kstep"
                 rec.check(f"{grp}/{c.name}", lab, err <= tol, f"returned logdet {got.flatten()[:3].tolist()} vs exact {kq}-point Gauss-Lanczos quadrature for the drawn probes {exp.flatten()[:3].tolist()}"
@@ -472,7 +475,7 @@ RTC_META = {
         "vector rhs with reduce_inv_quad=False: shapes (*batch,) and (*batch,1) are both accepted",
         "deterministic logdet: |ld-dense|/(1+|dense|) <= max(4,N)*eps*(400+40N+40kappa); quadratic forms: relative 8*tau*kappa",
         "stochastic logdet compared with the exact k-point Gauss-Lanczos rule (k=min(budget,n)) to 2e-7*max(1,kappa/100) relative (float64), 5e-3 (float32); "
-        "the CG-derived tridiagonal is not re-orthogonalised, so the comparison is restricted to n <= 18 and kappa <= 2e4",
+        "the CG-derived tridiagonal is not re-orthogonalised: for 1e3 < kappa <= 2e4 the comparison is only made to 2e-2 (n <= 18)",
         "the preconditioner P is taken from the operator's own _preconditioner() and checked for internal consistency (closure = P^-1, log|P|), "
         "because the identity holds for any SPD P",
         "skip_logdet_forward: only the shape of the log-determinant is contracted",
